@@ -1,5 +1,6 @@
 import O2P.Model.Gate
 import O2P.Lemmas.Cover
+import O2P.Lemmas.InferOr
 /-!
 # C06 — gate inference explains all observed successor sets; exact without mixed OR
 The quantifier of C06 is finite and is enumerated by `domain`: `domain_counts` (kernel-checked) gives
@@ -42,6 +43,37 @@ theorem family_plain :
 theorem subclass_counts :
     ((domain 4).filter inSubclass).length = 112 ∧ ((domain 5).filter inSubclass).length = 943 := by
   decide +kernel
+
+/-! ### the OR inference (`infer_or_gate_from_node`, `check_is_or_operator`, logic_detection.py 248-331) -/
+
+/-- **C06, the OR inference**: for the miner's parallel node with mandatory children `N` and optional branches
+`X(tau, r)` for `r ∈ R` — children abstract: their event names and the non-empty sets they produce, names distinct
+between the two sides — and any observed family `F`: when `check_is_or_operator` says OR the node becomes
+`O(r…, +(N…))` and admits every non-empty observed set the raw node admits; when it says no, the node becomes
+`+(N…, O(r…))` and still admits every observed set the raw node admits (an observed set with a mandatory event and no
+optional one would have made the test say OR). -/
+theorem or_inference_sound (F : List (List String)) (N R : List Child)
+    (hdisj : ∀ x, x ∈ labelsOfC N → x ∉ labelsOfC R) (s : List String) (hs : s ∈ F) (hraw : Raw N R s) :
+    (IsOr F N R → NewOr N R s ∨ s = []) ∧ (¬ IsOr F N R → NewAnd N R s) :=
+  infer_or_sound F N R hdisj s hs hraw
+
+/-- the executable test of the model (`checkIsOr`, compared with the real function on generated trees) is that
+decision on the labels of the subtrees -/
+theorem or_test_spec (sets : List (List String)) (nonTau removed : List PTree) :
+    checkIsOr sets nonTau removed = true ↔
+      (nonTau = [] ∨ ∃ s ∈ sets, (∃ x ∈ PTree.labelsL nonTau, x ∈ s) ∧ (∀ x ∈ PTree.labelsL removed, x ∉ s)) :=
+  checkIsOr_iff sets nonTau removed
+
+/-- non-vacuity: `+(c, X(tau,a), X(tau,b))` with the observation `{c}` becomes `O(a, b, c)`; without it
+`+(c, O(a, b))` -/
+example :
+    let raw : PTree := .node .and [.leaf "c", .node .xor [.tau, .leaf "a"], .node .xor [.tau, .leaf "b"]]
+    (match inferOrNode [["c"], ["a", "c"]] raw with
+      | .node .or [.leaf "a", .leaf "b", .leaf "c"] => true
+      | _ => false) = true ∧
+    (match inferOrNode [["a", "c"], ["a", "b", "c"]] raw with
+      | .node .and [.leaf "c", .node .or [.leaf "a", .leaf "b"]] => true
+      | _ => false) = true := by decide +kernel
 
 /-! ### the AND-under-OR recovery (`get_weighted_cover`, tel2puml/utils.py 14-60) -/
 
